@@ -8,7 +8,10 @@ AfterTermIgnored, PermutationInvariant, PerSample and GradSupport on the model;
 TLC-generated vectors (network OUTPUTS chosen by TLC, expected loss / auxiliary
 outputs / gradients printed by TLC) are realised with table-lookup stub
 networks (harness/stubs.py) and replayed into the real functions; values and
-gradients are compared exactly.  Beyond the lattice the same vectors are
+gradients are compared exactly.  The update routines around the losses
+(update_model_based_encoder, update_sale, update_critic_and_policy, td7_update_critic) are
+replayed with an SGD optimiser: returned values and old - new parameters against TLC's
+SgdStep values, hyper-parameters pairwise distinct.  Beyond the lattice the same vectors are
 re-run with float noise on every parameter and the spec's irrelevant cells
 (bootstrap part of terminated rows, steps after a termination) are perturbed /
 the batch is permuted with bitwise comparison.
@@ -28,9 +31,9 @@ from .. import exact, stubs, tlc
 LEVEL = "model_checking"
 MANIFEST = dict(
     category="model_checking",
-    text="Losses.tla transcribes the documented target and regression of every critic loss (DQN, Nature-DQN, DDQN, PER-DDQN, DDPG, TD3, TD3+LAP, SAC, TD7 critic update, MR.Q) and of the two representation losses (SALE embedding loss, MR.Q unrolled encoder loss) on exact rationals; TLC proves on the model, for every batch of the lattice, that terminated rows carry no bootstrap, that steps after a termination are ignored, permutation invariance, that the loss is a mean of per-sample terms and that only online parameters are reached by gradients, and refutes four named deviations. Every TLC-generated vector (exhaustive small lattice + seeded random walks over the full lattice, batch sizes 1-4) is realised with table-lookup stub networks and replayed into the REAL functions; loss, auxiliary outputs and jax gradients w.r.t. every parameter group and the bootstrap inputs are compared with TLC's numbers exactly (==) for batch sizes 1, 2, 4; for batch size 3 (mean over 3 is not dyadic) within a counted rounding bound k * 2^-24 * sum |terms| taken over the terms that are added, never relative to the result. Function-level properties over all inputs cannot be exhausted, so model checking of the documented arithmetic plus exact replay is the right level.",
-    note="bounded lattices (dyadic values, batch size <= 4, 2-3 discrete actions, horizon <= 3); network forward passes are inputs (stubs); two-hot reward cross-entropy only for uniform logits (value = coefficient * ln #bins within 24 counted roundings of its non-negative terms); off-lattice floats only relationally (bitwise irrelevance / permutation); trusted: harness/stubs.py realisation, Exact.tla, TLC",
-    technique="TLA+ spec + TLC (exhaustive invariants on the model, deviation canaries, vector generation); replay of TLC-generated vectors into the real loss functions with stub nnx modules, exact value and gradient comparison",
+    text="Losses.tla transcribes the documented target and regression of every critic loss (DQN, Nature-DQN, DDQN, PER-DDQN, DDPG, TD3, TD3+LAP, SAC, TD7 critic update, MR.Q) and of the two representation losses (SALE embedding loss, MR.Q unrolled encoder loss) on exact rationals; TLC proves on the model, for every batch of the lattice, that terminated rows carry no bootstrap, that steps after a termination are ignored, permutation invariance, that the loss is a mean of per-sample terms and that only online parameters are reached by gradients, and refutes five named deviations (incl. two neighbouring hyper-parameters exchanged inside an update routine). The USE of the losses by their update routines is modelled too (update_model_based_encoder's scan over mini-batches with the weighted sum dw*L_dyn + rw*L_reward + tw*L_done per mini-batch, update_sale, MR.Q's update_critic_and_policy, td7_update_critic): with pairwise distinct non-default hyper-parameters and an SGD optimiser of dyadic learning rate the returned losses / auxiliary outputs and the parameter step (old - new) of the real routine equal TLC's values, and nothing but the trained module moves. Every TLC-generated vector (exhaustive small lattice + seeded random walks over the full lattice, batch sizes 1-4) is realised with table-lookup stub networks and replayed into the REAL functions; loss, auxiliary outputs and jax gradients w.r.t. every parameter group and the bootstrap inputs are compared with TLC's numbers exactly (==) for batch sizes 1, 2, 4; for batch size 3 (mean over 3 is not dyadic) within a counted rounding bound k * 2^-24 * sum |terms| taken over the terms that are added, never relative to the result. Function-level properties over all inputs cannot be exhausted, so model checking of the documented arithmetic plus exact replay is the right level.",
+    note="bounded lattices (dyadic values, batch size <= 4, 2-3 discrete actions, horizon <= 3; update routines: batch size 2/4, 1-2 mini-batches on disjoint rows, plain SGD); network forward passes are inputs (stubs); two-hot reward cross-entropy only for uniform logits (value = coefficient * ln #bins within 24 counted roundings of its non-negative terms); off-lattice floats only relationally (bitwise irrelevance / permutation); trusted: harness/stubs.py realisation, Exact.tla, TLC",
+    technique="TLA+ spec + TLC (exhaustive invariants on the model, deviation canaries, vector generation); replay of TLC-generated vectors into the real loss functions and their update routines with stub nnx modules, exact value, gradient and SGD-step comparison",
 )
 
 INVS = ["TypeOK", "TerminatedNoBootstrap", "AfterTermIgnored", "PermutationInvariant", "PerSample", "GradSupport"]
@@ -1329,6 +1332,7 @@ def evaluate(rep, vectors, stats, variants_every=3, td7_cap=None):
             raise
         except Exception as e:  # raised by the code under test
             msg = f"{type(e).__name__}: {str(e).splitlines()[0][:200] if str(e) else ''}"
+            stats["failed"].update(canon(c.vec) for c in cases)  # not usable for the binding canary
             if n == 1:
                 stats["batch1"][fname] = f"rejects batch size 1 loudly ({msg})"
                 continue
@@ -1397,10 +1401,13 @@ def spec_canaries(pool):
         ("nosg", {"dqn"}, "GradSupport"),
         ("encbroadcast", {"enc"}, "PerSample"),
         ("encbroadcast", {"enc"}, "AfterTermIgnored"),
+        # two neighbouring scalar hyper-parameters exchanged in the inner positional call of an update routine
+        ("updswap", {"encupd"}, "UpdEachWeightItsOwnTerm"),
+        ("updswap", {"mrqupd"}, "UpdScalesInRole"),
     ]
     futs = []
     for dev, kinds, inv in todo:
-        c = dict(EMIT=False, Kinds=kinds, NSet={2}, NA=2, H=2, LAT="small", DEV=dev)
+        c = dict(EMIT=False, Kinds=kinds, NSet={1} if dev == "updswap" else {2}, NA=2, H=2, LAT="small", DEV=dev)
         futs.append((dev, inv, pool.submit(tlc.run, "Losses", tlc.cfg_text(constants=c, invariants=[inv]), workers=1, tag=f"losses-{dev}")))
     return futs
 
@@ -1476,17 +1483,18 @@ def binding_canary(rep, vectors, failed=frozenset()):
             i, t = cells[0]
             x = seq(seq(a2["sd"])[i])[t]
             seq(seq(a2["sd"])[i])[t] = [x[0] * 2 + 1, x[1] * 2]
-            want = ["update_model_based_encoder:done_loss", "update_model_based_encoder:step:encoder_model"]
+            # (a corrupted done expectation / done cell may coincide with the named broadcast deviation: classified as such)
+            want = [("update_model_based_encoder:done_loss",), ("update_model_based_encoder:step:encoder_model", "update_model_based_encoder:done_loss_broadcast")]
         else:
             a["loss"] = [a["loss"][0] * 4 + 1, a["loss"][1] * 4]
             g = seq(a2["s1"])
             i = next(i for i, x in enumerate(g) if fq(x) != 0)
             g[i] = [g[i][0] * 2 + 1, g[i][1] * 2]
-            want = ["update_critic_and_policy:loss", "update_critic_and_policy:step:online@obs"]
-        scratch = Report("C03", rep.tier, rep.seed)
-        evaluate(scratch, [bad, bad2], new_stats(), variants_every=10**9)
-        keys = [x["key"] for x in scratch.violations]
-        for w in want:  # prefix: a corrupted done expectation may be classified as done_loss_broadcast
+            want = [("update_critic_and_policy:loss",), ("update_critic_and_policy:step:online@obs",)]
+        for b, w in zip((bad, bad2), want):
+            scratch = Report("C03", rep.tier, rep.seed)
+            evaluate(scratch, [b], new_stats(), variants_every=10**9)
+            keys = [x["key"] for x in scratch.violations]
             if not any(k.startswith(w) for k in keys):
                 raise tlc.MachineryError(f"binding canary: corrupted expectation ({kind}, {w}) not noticed; got {keys}")
 
@@ -1514,8 +1522,11 @@ def run(rep):
         sims += [dict(NSet={2, 3}, NA=2, H=3, LAT="small", num=200, Kinds={"enc", "mrq"})]
     else:
         sims += [dict(NSet={1, 2, 3, 4}, NA=2, H=2, LAT="full", num=6000), dict(NSet={2, 4}, NA=3, H=1, LAT="full", num=1500)]
+    # update routines (update_model_based_encoder, update_sale, update_critic_and_policy): exhaustive invariants on batch size 1
+    # (encoder: 1-2 mini-batches), vectors from seeded random walks; dyadic batch sizes only (every comparison exact)
+    usims = [dict(NSet={2}, H=2, LAT="small", num=150)] if quick else [dict(NSet={2, 4}, H=3, LAT="full", num=450), dict(NSet={2, 4}, H=2, LAT="full", num=600)]
     # all TLC runs are independent processes: run them side by side
-    with ThreadPoolExecutor(max_workers=4 + len(sims)) as pool:
+    with ThreadPoolExecutor(max_workers=6 + len(sims) + len(usims)) as pool:
         can = spec_canaries(pool)
         # 1. properties on the model, exhaustive over the small lattice
         f_inv = pool.submit(tlc.run, "Losses", tlc.cfg_text(constants=base, invariants=INVS), workers=workers, tag="losses-inv", timeout=1500)
@@ -1525,6 +1536,13 @@ def run(rep):
         if not quick:  # batches of three rows for the kinds whose small row lattice allows it (the others: random walks below)
             c3 = dict(base, NSet={3}, Kinds={"td3", "lap", "td7", "enc"})
             f_inv3 = pool.submit(tlc.run, "Losses", tlc.cfg_text(constants=c3, invariants=INVS), workers=workers, tag="losses-inv3", timeout=3000)
+        cu = dict(EMIT=False, Kinds=set(UPD_KINDS), NSet={1}, NA=2, H=2, LAT="small", DEV="")
+        f_uinv = pool.submit(tlc.run, "Losses", tlc.cfg_text(constants=cu, invariants=UPD_INVS), workers=min(workers, 4), tag="losses-updinv", timeout=1500)
+        f_usim = []
+        for si, us in enumerate(usims):
+            cu = dict(EMIT=True, Kinds=set(UPD_KINDS), NSet=us["NSet"], NA=2, H=us["H"], LAT=us["LAT"], DEV="")
+            f_usim.append(pool.submit(tlc.run, "Losses", tlc.cfg_text(constants=cu, invariants=UPD_INVS), workers=1, simulate=f"num={us['num']}", depth=40,
+                                      seed=rep.seed * 7 + 97 + si, tag=f"losses-updsim{si}", timeout=1500))
         f_sim = []
         for si, s in enumerate(sims):
             cc = dict(EMIT=True, Kinds=s.get("Kinds", set(ALL_KINDS)), NSet=s["NSet"], NA=s["NA"], H=s["H"], LAT=s["LAT"], DEV="")
@@ -1537,6 +1555,12 @@ def run(rep):
         r = f_inv.result()
         g = f_gen.result()
         sim_res = [f.result() for f in f_sim]
+        ru = f_uinv.result()
+        sus = [f.result() for f in f_usim]
+    rep.add_tlc(ru, "Losses update routines, batch size 1, 1-2 mini-batches: invariants")
+    if not ru.ok:
+        rep.violation(f"spec:Losses:{ru.violated}", f"design-level violation of {ru.violated} (update routines)", ru.error_trace)
+    sim_res += sus
     rep.add_tlc(r, "Losses small lattice N in {1,2}: invariants")
     if not r.ok:
         rep.violation(f"spec:Losses:{r.violated}", f"design-level violation of {r.violated}", r.error_trace)
@@ -1577,7 +1601,10 @@ def run(rep):
         "TLC enumerates every vector of Losses.tla's small lattice (12 loss kinds, batch size 1-2, curated dyadic values, all termination patterns) "
         "and draws seeded random walks over the full lattice (batch size 1-4, 2-3 actions, horizon 1-3); each vector is a staged choice kind -> parameters -> "
         "per row (bootstrap part, transition + online predictions); a vector is non-trivial when its expected loss is non-zero; every distinct vector is "
-        "realised with stub networks and replayed once (plus noise / irrelevant-cell perturbation / permutation variants for every 3rd-4th vector)"
+        "realised with stub networks and replayed once (plus noise / irrelevant-cell perturbation / permutation variants for every 3rd-4th vector); "
+        "the update routines (update_model_based_encoder over 1-2 mini-batches, update_sale, update_critic_and_policy; td7_update_critic is kind td7) get "
+        "their own walks with curated, pairwise distinct non-default hyper-parameters and an SGD optimiser with dyadic learning rate: returned losses and "
+        "old - new parameters are compared with TLC's values"
     )
     for v in [u for u in uniq if u["n"] >= 2 and nontrivial(u)][:: max(1, len(uniq) // 3)][:3]:
         rep.sample({"kind": v["kind"], "n": v["n"], "par": _short(v["par"], v["kind"]), "rows": v["rows"], "expected": v["alts"][0]})
@@ -1591,6 +1618,9 @@ def run(rep):
         "two-hot reward cross-entropy inside model_based_encoder_loss only for uniform logits (coefficient * ln #bins within 24 counted roundings)",
         "batch size 3: values and gradients within counted rounding bounds k * 2^-24 * sum |terms| (k = number of float32 roundings incl. 1/3 and the Huber backward pass); expected zeros and batch sizes 1, 2, 4 exact",
         "td7_update_critic's gradient is observed through an SGD(lr=1) optimiser step",
+        "update routines: SGD(lr in {1/2, 1}) supplied by the binding, batch sizes 2 and 4, target_delay 1-2; over several mini-batches the encoder's model head is a table "
+        "lookup on the row-step (state-action layer ignores the latent state) and no row is drawn twice, so mini-batches do not interact; reward-logit cells of the step "
+        "within 8 counted roundings, everything else ==; the policy part of update_critic_and_policy is not judged (not a C03 loss)",
         "trusted: harness/stubs.py, realisation code in c03.py, Exact.tla, TLC",
     ]
 
